@@ -1090,3 +1090,44 @@ Proof.
   - cbn. repeat constructor; cbn; intuition discriminate.
   - vm_compute. discriminate.
 Qed.
+
+(* ---- Gateway API routes ---- *)
+Theorem sort_routes_perm l1 l2 :
+  Permutation l1 l2 -> NoDup (map gr_full l1) -> sort_routes l1 = sort_routes l2.
+Proof.
+  apply (isort_perm groute_ltb gr_full).
+  - intros a. apply ing_ltb_irrefl.
+  - intros a b c. apply ing_ltb_trans.
+  - intros a b Hn. apply ing_ltb_total. exact Hn.
+Qed.
+
+Theorem gateway_sort_perm l1 l2 :
+  Permutation l1 l2 -> NoDup (map gr_full l1) ->
+  sort_routes l1 = sort_routes l2 /\ route_conversion l1 = route_conversion l2 /\
+  StronglySorted (fun a b => groute_ltb a b = true) (sort_routes l1).
+Proof.
+  intros Hp Hn. split; [apply sort_routes_perm; assumption|]. split.
+  - unfold route_conversion. rewrite (sort_routes_perm l1 l2 Hp Hn). reflexivity.
+  - apply (isort_sorted groute_ltb gr_full); [| |exact Hn].
+    + intros a b c. apply ing_ltb_trans.
+    + intros a b Hne. apply ing_ltb_total. exact Hne.
+Qed.
+
+(* a claim goes to the first route, in (creation, namespace/name) order, that makes it *)
+Lemma claim_fold cs : forall taken k,
+  assoc k (fold_left claim_step cs taken)
+  = match assoc k taken with Some v => Some v | None => assoc k cs end.
+Proof.
+  induction cs as [|[k1 v1] r IH]; intros taken k; cbn [fold_left assoc].
+  - destruct (assoc k taken); reflexivity.
+  - rewrite IH. unfold claim_step. cbn [fst].
+    destruct (assoc k1 taken) as [v0|] eqn:E1.
+    + destruct (assoc k taken) eqn:Ek; [reflexivity|].
+      destruct (String.eqb_spec k k1) as [->|_]; [congruence|reflexivity].
+    + rewrite assoc_app. cbn [assoc]. destruct (assoc k taken); [reflexivity|].
+      destruct (String.eqb k k1); reflexivity.
+Qed.
+
+Theorem route_first_claim l k :
+  assoc k (route_conversion l) = assoc k (flat_map gr_claims (sort_routes l)).
+Proof. unfold route_conversion. rewrite claim_fold. reflexivity. Qed.
